@@ -67,6 +67,12 @@ func wrapInt(x IntType) IntType { return x }
 var pegStatementRules = []string{"dicescript", "stmtSt", "stmtRoot", "stmtLines", "stmtWithBlock", "stmtIf", "stmtWhile", "stmtFunc", "nextLine", "block", "stmtElse",
 	"st_expr", "st_assign_multi", "st_modify_multi_1", "st_modify_multi_rest"}
 
+// pegScopedFlags: "<rule>><target>: facts" — inside <rule>, <target> is parsed with these switches unless the value is
+// parenthesised.  The value of an st assignment is an expression only (no statements), without the `Nd` shorthand and
+// without bitwise operators, so that it cannot swallow the beginning of the next attribute name or the `&` of the next
+// computed assignment (C18: nothing else in the input is reinterpreted as part of an edit).
+var pegScopedFlags = []string{"est>exprRoot: DisableStmts=true DisableNDice=true DisableBitwiseOp=true"}
+
 // jsonInt / jsonFloat / jsonStr: the value the JSON document held by b has at a tag path such as "t", "v", "v.expr"
 // (encoding/json document model of dsvc: what Marshal wrote at a path is what Unmarshal reads there).
 func jsonInt(b []byte, path string) IntType   { panic("spec only") }
